@@ -36,7 +36,7 @@ def selected(prog, ign, inst_first):
     return dict(names=names, idx=idx, star='*' in names, dstar='**' in names, remaining=remaining, shift=shift)
 
 
-def run_program(tier, idx, prog=None, plan=None, seed=None):
+def run_program(tier, idx, prog=None, plan=None, seed=None, kms=None):
     """returns dict(lines, recs, viol, tags, err)"""
     from klepto._inspect import _keygen, NULL
     from klepto.keymaps import SENTINEL
@@ -74,7 +74,7 @@ def run_program(tier, idx, prog=None, plan=None, seed=None):
         tags = collections.Counter()
         tags['kind=' + prog['kind']] += 1
         if sib_done: tags['sibling-keyed-first'] += 1
-        kms = [sk.KEYMAPS[(idx + j) % len(sk.KEYMAPS)] for j in range(4)]
+        kms = [(k_, dict(o_)) for k_, o_ in kms] if kms else [sk.KEYMAPS[(idx + j) % len(sk.KEYMAPS)] for j in range(4)]
         ncalls = 6
         plan_out = []
         INST = '<INST>'
@@ -93,17 +93,33 @@ def run_program(tier, idx, prog=None, plan=None, seed=None):
                 ign = tuple(eval(plan[ci]['ign']))
                 group = [tuple([g[0], dec_args(g[1]), dec_kw(g[2])] + ([tuple(g[3])] if len(g) > 3 and g[3] is not None else [])) for g in plan[ci]['group']]
                 args, kw = group[0][1], group[0][2]
+                # a stored same-object pair (equal values as ONE object in the base call, as two objects in its respelling): the text
+                # of a plan cannot say which values were one object, so it is re-established here
+                for g_ in group[1:]:
+                    if g_[0] == 'respell' and g_[1] == args and g_[2] == kw:
+                        for j_ in range(len(args) - 1):
+                            if isinstance(args[j_], (str, tuple)) and len(args[j_]) > 1 and args[j_] == args[j_ + 1]:
+                                args[j_ + 1] = args[j_]
+                                g_[1][j_] = args[j_]; g_[1][j_ + 1] = ''.join(list(args[j_])) if isinstance(args[j_], str) else tuple(list(args[j_]))
+                                plan_sameobj = True
+                                break
                 sel0 = selected(prog, ign, inst_first)
             else:
               ign = sk.gen_ignore(r, prog)
               malformed = r.random() < 0.1
               args, kw = sk.gen_call(r, prog, malformed)
               if inst_first: args = [inst] + args
+              if idx % 10 == 3 and ci < 3 and prog['kind'] == 'func' and prog['npos'] >= 1 and args and not malformed:
+                  # stratum: a plain function whose first argument is an object with a non-method attribute named like the
+                  # function, and whose first parameter is hidden by name
+                  args = [sk.OBJS[(idx // 10 + ci) % 2]] + list(args[1:])
+                  if sk.pnames(prog)[0] not in ign: ign = tuple(ign) + (sk.pnames(prog)[0],)
+                  tags['first-argument-has-attribute-named-like-the-function'] += 1
             # the call group: base, respellings (same binding), single-value mutations
             if plan is None: group = [('base', args, kw)]
             for a2, k2 in (sk.respell(r, f, args, kw, inst_first)[:3] if (sig is not None and plan is None) else []):
                 group.append(('respell', a2, k2))
-            sameobj = False
+            sameobj = bool(locals().get('plan_sameobj')); plan_sameobj = False
             # equal values as ONE object vs as two distinct objects (a key must depend on values, not on object identity)
             if plan is None and sig is not None and len(args) >= (3 if inst_first else 2) and not kw and r.random() < 0.3:
                 v = r.choice(['shared-%d' % idx, ('t', idx)])
@@ -277,6 +293,11 @@ def run_program(tier, idx, prog=None, plan=None, seed=None):
                         D = getattr(klepto.safe if mod == 'safe' else klepto, nm)
                         ignarg = ign[0] if (len(ign) == 1 and (idx // 12) % 2 == 0) else ((list(ign) if ci % 2 else ign) if ign else None)
                         d = D(keymap=sk.make_km(kmk, kmo), ignore=ignarg)(f)
+                        # C18: `__wrapped__` is the callable that was decorated - whatever kind of callable it is
+                        if ci == 0 and getattr(d, '__wrapped__', None) is not f:
+                            viol.append(dict(prop='C18', sig=dict(kind='wrapped-is-not-the-original', callable=prog.get('kind')),
+                                             msg='%s.%s over a %s: __wrapped__ is %.80r, the decorated callable is %.80r' % (
+                                                 mod, nm, prog.get('kind'), getattr(d, '__wrapped__', None), f), item=dict(ci=ci)))
                         ent['key'] = d.key(*a, **k)
                         # C18: key() is the slot - make the call (when CPython accepts it) and look for the key among what it stored
                         if rec['bind'] is not None and nm != 'no_cache':
@@ -402,7 +423,7 @@ def run_program(tier, idx, prog=None, plan=None, seed=None):
         fast = [I(t) for t in (int, str, bytes, frozenset, type(None))]
         ty += [[i, I(type(I.objs[i]))] for i in range(len(ty), len(I.objs))]
         cfg = dict(suite='keys', op='cfg', order=[I(n) for n in names_sorted], ty=ty, fast=fast, func=desc, **consts)
-        return dict(idx=idx, prog=prog, src=src, cfg=cfg, recs=recs, viol=viol, tags=dict(tags), objs=I, err=None, plan=plan_out)
+        return dict(idx=idx, prog=prog, src=src, cfg=cfg, recs=recs, viol=viol, tags=dict(tags), objs=I, err=None, plan=plan_out, kms=[[k_, o_] for k_, o_ in kms])
     except Exception:
         return dict(idx=idx, prog=prog, err=traceback.format_exc()[-1800:], recs=[], viol=[], tags={})
 
@@ -585,7 +606,7 @@ def explore(prop, tier, n=None, offset=0):
             if v['prop'] in ALSO.get(prop, (prop,)):
                 ci = v.get('item', {}).get('ci')
                 v = dict(v, prop=prop)
-                viols.append(dict(v, i=0, cfg=dict(tier=tier, idx=q['idx'], seed=SEED), ops=q['prog'], src=q['src'],
+                viols.append(dict(v, i=0, cfg=dict(tier=tier, idx=q['idx'], seed=SEED, kms=q.get('kms')), ops=q['prog'], src=q['src'],
                                   plan=[q['plan'][ci]] if ci is not None else q['plan']))
     samples = [q['sample'] for q in progs[:3] if q['sample']]
     return dict(suite='keys', traces=len(progs), evaluations=sum(q['nrecs'] for q in progs), distinct_nontrivial=nontrivial,
@@ -595,7 +616,7 @@ def explore(prop, tier, n=None, offset=0):
 
 
 def replay(prop, obj):
-    q = run_program(obj['cfg']['tier'], obj['cfg']['idx'], seed=obj['cfg'].get('seed', 0), prog=obj.get('program'), plan=obj.get('plan'))
+    q = run_program(obj['cfg']['tier'], obj['cfg']['idx'], seed=obj['cfg'].get('seed', 0), prog=obj.get('program'), plan=obj.get('plan'), kms=obj['cfg'].get('kms'))
     if q['err']: raise NoVerdict(q['err'])
     divs = [d for d in analyse(prop, [q]) if d['detail']['what'] in PROP_DIV.get(prop, ())]
     return dict(violations=[dict(prop=prop, sig=v['sig'], msg=v['msg'], i=0) for v in q['viol'] if v['prop'] in ALSO.get(prop, (prop,))],
